@@ -9,7 +9,7 @@ from ..model import func_nodes, norm, AnalysisError, static_truth
 from ..cfg import calls_in, _walk_noscope
 from .util import (none_test, node_has_effect, effect_nodes, calls_method_of, recv_call, stmt_of, parent,
                    cfg_nodes)
-from .liveness import broken_pred, resolve_pred, flag_writers, spawn_pred, close_callq_pred
+from .liveness import broken_pred, resolve_pred, flag_writers, spawn_pred, close_callq_pred, manager_only
 
 PE = "loky.process_executor"
 BPP = f"{PE}:BrokenProcessPool"
@@ -363,6 +363,41 @@ def r_mgr_total(e, R):
                     f"`{norm(c)[:50]}` raises queue.{exc} when there is " + ("nothing to read" if exc == "Empty" else "no room") + ", which is the normal outcome of a "
                     f"non-blocking call, and no `except queue.{exc}` protects it: the " + ("manager thread" if q != a.worker_main.qualname else "worker") +
                     " dies (or treats it as a crash) instead of carrying on", e.loc(f, c))
+    # dict.popitem() raises KeyError on an empty dict: either the loop guard excludes it (and nobody else removes entries) or it is handled
+    for q in sorted(a.manager_funcs):
+        f = e.prog.funcs[q]
+        for c in [x for x in func_nodes(f) if isinstance(x, ast.Call) and isinstance(x.func, ast.Attribute) and x.func.attr == "popitem"]:
+            recv = e.objs(f, c.func.value)
+            if not (recv & (a.pending | a.processes)):
+                continue
+            n += 1
+            handled = False
+            for cn in cfg_nodes(e, f, c):
+                hs = [m for m, l in cn.succ if l == "exc" and m.kind == "except"]
+                handled = handled or any(h.ast.type is None or norm(h.ast.type) in ("KeyError", "LookupError", "Exception", "BaseException") for h in hs)
+            guarded = False
+            p_ = e.prog.parent.get(id(stmt_of(e, f, c)))
+            while p_ is not None and not isinstance(p_, ast.FunctionDef):
+                if isinstance(p_, ast.While) and e.objs(f, p_.test) & recv:
+                    guarded = True
+                p_ = e.prog.parent.get(id(p_))
+            # removers outside the manager thread (e.g. the feeder's error hook pops pending items)
+            others = []
+            for g2 in e.prog.funcs.values():
+                if g2.qualname in a.manager_funcs and manager_only(e, g2.qualname):
+                    continue
+                if g2.module.name == "__user__":
+                    continue
+                for x in func_nodes(g2):
+                    if isinstance(x, ast.Call) and isinstance(x.func, ast.Attribute) and x.func.attr in ("pop", "popitem", "clear") and e.objs(g2, x.func.value) & recv:
+                        others.append(g2.short)
+                    if isinstance(x, ast.Delete) and any(isinstance(t, ast.Subscript) and e.objs(g2, t.value) & recv for t in x.targets):
+                        others.append(g2.short)
+            ok = handled or (guarded and not others)
+            R.check(ok, "R-MGR-TOTAL", f"{f.short}: `{norm(c)[:40]}` cannot raise KeyError out of the manager thread", f.short, norm(c)[:50],
+                    "popitem() on a table that " + (f"{sorted(set(others))} also remove entries from" if others else "may be empty") +
+                    " is neither handled (except KeyError) nor excluded by its loop guard: the manager thread dies in the middle of failing / joining everything",
+                    e.loc(f, c))
     R.info["mgr_total_partial_calls"] = n
     if n < 1:
         R.ok("R-MGR-TOTAL", "no value-partial stdlib call on the manager's detection path", None)
@@ -713,6 +748,9 @@ def r_kill_tree(e, R):
         return ev
     hk = [n for n in gk.nodes if n.kind == "except"]
     reraise = lambda n: n.kind == "stmt" and isinstance(n.ast, ast.Raise)
+    R.check(bool(hk) and all(h.ast.type is not None and norm(h.ast.type) in ("OSError", "ProcessLookupError", "Exception", "BaseException") for h in hk), "R-KILL-TREE",
+            f"{fk.short}: the handler around os.kill catches OSError (ESRCH is an OSError)", fk.short, f"except {[norm(h.ast.type) for h in hk]}",
+            "a process that already exited raises ProcessLookupError out of the tree kill: the rest of the tree is not killed", e.loc(fk, fk.node))
     for h in hk:
         ok1 = gk.find_path(h, reraise, use_exc=False, edge_ok=SC.Facts([], [esrch(True)]).edge_ok()) is None
         ok2 = gk.escape_path(h, reraise, use_exc=False, edge_ok=SC.Facts([], [esrch(False)]).edge_ok()) is None and any(reraise(n) for n in gk.nodes)
@@ -729,7 +767,11 @@ def r_kill_tree(e, R):
                     return is_one == isinstance(x.ops[0], ast.Eq)
             return None
         return ev
-    for h in [n for n in gr.nodes if n.kind == "except"]:
+    hr = [n for n in gr.nodes if n.kind == "except"]
+    R.check(bool(hr) and all(h.ast.type is not None and norm(h.ast.type).split(".")[-1] in ("CalledProcessError", "SubprocessError", "Exception", "BaseException") for h in hr),
+            "R-KILL-TREE", f"{fr.short}: the handler around pgrep catches CalledProcessError (exit status 1 = no children)", fr.short,
+            f"except {[norm(h.ast.type) for h in hr]}", "pgrep's 'no children' exit status raises out of the tree kill for every leaf process", e.loc(fr, fr.node))
+    for h in hr:
         ok1 = gr.find_path(h, reraise, use_exc=False, edge_ok=SC.Facts([], [noch(True)]).edge_ok()) is None and \
             gr.find_path(h, lambda n: n in selfk, use_exc=False, edge_ok=SC.Facts([], [noch(True)]).edge_ok()) is not None
         ok2 = gr.escape_path(h, reraise, use_exc=False, edge_ok=SC.Facts([], [noch(False)]).edge_ok()) is None and any(reraise(n) for n in gr.nodes)
